@@ -1,25 +1,167 @@
 """C20 -- inverter objects are independent; returned values do not change afterwards."""
+import asyncio
+from ..runner import Stage
 from . import sensorprop as SP
-from .. import invmon as IM
+from .. import invmon as IM, siminv as SI, coqrun as C
+
+WATCH = [47000, 45248, 45252, 45356, 47510, 47511, 47512, 47533] + list(range(47547, 47571)) + list(range(47589, 47595))
+DEF_IDS = ['eco_mode_1', 'eco_mode_2', 'eco_mode_3', 'eco_mode_4', 'peak_shaving_mode']
+GROUPS = ['0000173bff7fffce00500000', '0000173bff7f003200640000', '0000173bf97ffe0c00500fff', '300030000000006400640000', '30003000550000640064ffff',
+          '0000173bfc7f00c8003c0000', '01000200fe7f000000640000', '1600061eff1fffe200640000', '000000000000000000000000',
+          # unreadable at various depths: hour, minute, on/off byte, power range (after the type was assigned), SoC range
+          '1900173bf97f003200640fff', '0000174bf97f003200640fff', '0000173b207f003200640000', '0000173bf97f07d000500fff', '0000173bff7f012c00500000',
+          '0000173bfc7f00c800c80000', '400000000000000000000000', 'ffffffffffffffffffffffff']
+MODES = ['GENERAL', 'OFF_GRID', 'BACKUP', 'ECO', 'PEAK_SHAVING', 'SELF_USE', 'ECO_CHARGE', 'ECO_DISCHARGE']
+MODE_C = {'GENERAL': 'MGeneral', 'OFF_GRID': 'MOffGrid', 'BACKUP': 'MBackup', 'ECO': 'MEco', 'PEAK_SHAVING': 'MPeakShaving', 'SELF_USE': 'MSelfUse',
+          'ECO_CHARGE': 'MEcoCharge', 'ECO_DISCHARGE': 'MEcoDischarge'}
+SCALARS = ['work_mode', 'eco_mode_2_switch', 'eco_mode_3_switch', 'battery_discharge_depth', 'grid_export_limit', 'backup_supply', 'cold_start']
+FIELDS = ['start_h', 'start_m', 'end_h', 'end_m', 'on_off', 'day_bits', 'power', 'soc', 'month_bits']
+
+
+def _enc_def(d):
+    out = []
+    for f in FIELDS:
+        v = getattr(d, f)
+        out += [0] if v is None else [1, int(v)]
+    return out + [int(d.schedule_type)]
+
+
+def _coq_def(d):
+    return 'mkSdef ' + ' '.join('None' if getattr(d, f) is None else f'(Some {C.zs(int(getattr(d, f)))})' for f in FIELDS[:4] + ['on_off', 'day_bits', 'power', 'soc', 'month_bits']) + \
+        ' None None ' + C.zs(int(d.schedule_type))
+
+
+def _gen_op(rng):
+    k = rng.choice(['read', 'read', 'readg', 'readg', 'write', 'writeg', 'writeg', 'setmode', 'setmode', 'setmode', 'getmode', 'getmode'])
+    if k == 'read': return ('ORead', rng.choice(SCALARS))
+    if k == 'readg': return ('ORead', rng.choice(DEF_IDS))
+    if k == 'write':
+        i = rng.choice(SCALARS + ['eco_mode_1', 'nonexistent'])
+        return ('OWrite', i, rng.choice([0, 1, 2, 3, 4, 5, 50, 100, 255, -1, 7000]))
+    if k == 'writeg':
+        g = rng.choice(GROUPS)
+        if rng.random() < 0.1: g = g[:16]
+        return ('OWriteGroup', rng.choice(DEF_IDS), g)
+    if k == 'setmode': return ('OSetMode', rng.choice(MODES), rng.choice([-1, 0, 1, 37, 50, 100, 101]), rng.choice([-1, 0, 80, 100, 101]))
+    return ('OGetMode',)
+
+
+def _coq_op(o):
+    if o[0] == 'ORead': return f'ORead {C.cstr(o[1])}'
+    if o[0] == 'OWrite': return f'OWrite {C.cstr(o[1])} {C.zs(o[2])}'
+    if o[0] == 'OWriteGroup': return f'OWriteGroup {C.cstr(o[1])} {C.zl(bytes.fromhex(o[2]))}'
+    if o[0] == 'OSetMode': return f'OSetMode {MODE_C[o[1]]} {C.zs(o[2])} {C.zs(o[3])}'
+    return 'OGetMode'
+
+
+def _do_op(goodwe, inv, o):
+    OM = goodwe.OperationMode
+    try:
+        if o[0] == 'ORead':
+            v = asyncio.run(inv.read_setting(o[1]))
+            if hasattr(v, 'start_h'):
+                return [3, v.start_h, v.start_m, v.end_h, v.end_m, v.power, v.on_off, v.day_bits, v.soc, v.month_bits, int(v.schedule_type)]
+            return [2] if v is None else [1, int(v)] if isinstance(v, int) else [90]
+        if o[0] == 'OWrite': asyncio.run(inv.write_setting(o[1], o[2])); return [5]
+        if o[0] == 'OWriteGroup': asyncio.run(inv.write_setting(o[1], bytes.fromhex(o[2]))); return [5]
+        if o[0] == 'OSetMode': asyncio.run(inv.set_operation_mode(OM[o[1]], o[2], o[3])); return [5]
+        m = asyncio.run(inv.get_operation_mode())
+        return [4, -1 if m is None else int(m)]
+    except Exception as ex:     # noqa
+        return [6, C.enc_exc(ex)[0]]
+
+
+def _enc_log(entries):
+    out = []
+    for e in entries:
+        if e.get('fn') == 3: out += [7, e['reg'], e['count']]
+        elif e.get('fn') == 6: out += [8, e['reg'], 1, e['val'] & 0xFFFF]
+        elif e.get('fn') == 16:
+            p = e['payload']; out += [8, e['reg'], len(p) // 2] + [int.from_bytes(p[i:i + 2], 'big') for i in range(0, len(p), 2)]
+        else: out += [99]
+    return out
+
+
+def stage_two_obj_model(ctx):
+    """Model/TwoObj.v (programs and shapes generated from the source) against two real ET objects (platform 205 and 745, ARM fw 22) on two
+    simulated inverters in one process: every call's result and register transactions, and the attributes of the shared Schedule definition
+    objects at the end, for random interleavings of read_setting / write_setting / set_operation_mode / get_operation_mode"""
+    st = Stage('two-object-model-correspondence')
+    n = 60 if not ctx.deep else 600
+    cases, descr = [], []
+    for trial in range(n):
+        rng = ctx.rng
+        goodwe = SI.reload_goodwe()
+        plat = [rng.choice([False, True]), rng.choice([False, True])] if trial % 3 else [False, True]
+        objs = []
+        for is745 in plat:
+            inv, sim = IM.make_et(goodwe, IM.ET_SERIALS['745 HV' if is745 else '205 three-phase'], 10000, (), 2, seed=rng.randrange(1 << 30), arm_fw=22)
+            asyncio.run(inv.read_device_info())
+            for base in (47547, 47553, 47559, 47565, 47589): sim.set_bytes(base, bytes.fromhex(rng.choice(GROUPS)))
+            sim.set(47000, rng.choice([0, 1, 2, 3, 3, 3, 4, 5, 9]))
+            objs.append((inv, sim))
+        # some history on the shared definitions before the observed run starts
+        for _ in range(rng.randrange(0, 3)):
+            try: asyncio.run(objs[rng.randrange(2)][0].read_setting(rng.choice(DEF_IDS)))
+            except Exception: pass      # noqa
+        defs0 = {i: objs[0][0]._settings[i] for i in DEF_IDS}
+        shared = all(objs[1][0]._settings[i] is defs0[i] for i in DEF_IDS)
+        coq_defs = 'fun k => ' + ' '.join(f'if String.eqb k {C.cstr(i)} then {_coq_def(defs0[i])} else' for i in DEF_IDS) + ' sdef0 0 None'
+        rfs = []
+        for inv, sim in objs:
+            rfs.append('fun a => ' + ' '.join(f'if a =? {a} then {sim.word(a)} else' for a in WATCH) + ' 0')
+        ops = [(rng.randrange(2), _gen_op(rng)) for _ in range(rng.randrange(2, 9))]
+        want = []
+        for who, o in ops:
+            inv, sim = objs[who]
+            n0 = len(sim.log)
+            r = _do_op(goodwe, inv, o)
+            want += [who] + r + _enc_log(sim.log[n0:]) + [-9]
+        for i in DEF_IDS: want += _enc_def(objs[0][0]._settings[i])
+        l = '[' + '; '.join(f'({"true" if who else "false"}, {_coq_op(o)})' for who, o in ops) + ']'
+        term = (f'enc_run om_values [{"; ".join(C.cstr(i) for i in DEF_IDS)}] (run (et_tctx {str(plat[0]).lower()} {str(plat[1]).lower()}) '
+                f'(mkW ({rfs[0]}) ({rfs[1]}) ({coq_defs})) {l})')
+        cfg = dict(platform_745=plat, ops=[(who, list(o)) for who, o in ops], definitions_shared=shared)
+        cases.append((term, want)); descr.append(cfg)
+        st.case(repr(cfg), sample=cfg if len(st.samples) < 3 else None)
+    bad, err = C.eval_cases('c20two', 'PyFloat Sensors Settings TablesGen SettingsGen SchedDef SharedGen Modes ModesGen ModesInst TwoObj TwoObjInst', cases, shard=40)
+    if err: st.violation('two-obj-eval', f'model evaluation failed: {err[:300]}', dict(error=err), no_input=True)
+    for i in bad[:6]:
+        st.violation('two-obj-mismatch', f'Model/TwoObj.v and two real ET objects disagree on {descr[i]}: implementation {cases[i][1]}',
+                     dict(config=descr[i], implementation=cases[i][1], correspondence='TwoObj.run (generated programs) vs goodwe.et.ET on two simulators'), no_input=True)
+    return st
 
 SPEC = dict(
-    level='other',
+    level='proof',
     manifest=dict(
-        text='KNOWN FINDING (reproduced on every run): the EcoModeV1 / Schedule sensor definitions are class-level objects, mutated by '
-             'read_value and returned to the caller; two inverter objects influence each other through them and a returned eco-mode value '
-             'changes with later reads.  The unedited test-suite pins mutate-and-return-self, so it is recorded, not repaired.  The check runs '
-             'interleavings of call sequences on two inverter objects (same / different families, platforms, firmware, transports) against two '
-             'simulated inverters, compares per-object request transcripts and results with the solo runs and re-prints every returned value '
-             'at the end; any difference that does not involve the eco-mode definitions is a violation.  In Coq the sensor model decodes every '
-             'sensor as a function of the response bytes only (C20_decoding_has_no_hidden_state): that is the behaviour the code would have '
-             'with fresh values, and it is what the correspondence of C11/C12 validates for single reads.',
-        note='No theorem can establish independence for the code as it is (the property is false); the theorem is about the model only.',
-        technique='two-object interleaving search with solo-run oracle + Coq statement of statelessness of the decoding model',
+        text='The property is FALSE for the code as it is (two known findings, reproduced on every run; the unedited test-suite pins '
+             'mutate-and-return-self of the eco-mode definitions, so they are recorded, not repaired).  It is decided on a Coq model of two ET objects '
+             'in one process (Model/TwoObj.v: two register files, the shared Schedule definition objects with their Python attribute semantics '
+             '-- a read that fails half-way keeps what it assigned --, read_setting / write_setting / set_operation_mode / get_operation_mode with '
+             'results and register transactions) whose programs are generated from the current source (Schedule.read_value and EcoModeV1.read_value '
+             'by tools/sv2v.py, the mode step lists by om2v.py, the write shapes by ws2v.py) and which is compared on every run with two real ET '
+             'objects on two simulated inverters (results, request transcripts and the attributes of the shared definition objects).  '
+             'C20_untouching_neighbour_does_not_interfere: for EVERY interleaving, register content and definition state, an object returns and '
+             'transmits exactly what it does alone, whatever its own calls are, provided the calls on the other object do not touch a schedule '
+             'definition; C20_requests_differ_refuted / C20_returned_value_changes_refuted: the two known findings as theorems with their witnesses.  '
+             'C20_shared_state_inventory: a whole-package scan regenerated on every run (class-level / module-level containers, globals, mutable '
+             'defaults, memoising decorators, every mutation site whose receiver is not fresh in the call or fresh per instance, the self-mutating '
+             'sensor definition classes and their table rows) equals exactly what the model assumes is shared.  Everything outside the model (DT, ES, '
+             'eco-mode v1, runtime data, transports, communication addresses) is covered by the interleaving search with the solo-run oracle.',
+        note='The model covers ET objects with ARM firmware >= 22 (eco-mode v2 settings); the inventory is a syntactic over-approximation that '
+             'fails closed (a new shared container or mutation site breaks the theorem, after which the interleaving search looks for a witness).',
+        technique='Coq non-interference proof on a two-object model with generated programs + refutation theorems for the known findings + '
+                  'generated shared-state inventory + model correspondence on two real objects + two-object interleaving search with solo-run oracle',
         design_ref='DESIGN.md section 5 (C20)'),
-    stages=[SP.inv_stage('two-object-interleavings', IM.mon_indep)],
-    theorems=['C20_decoding_has_no_hidden_state'],
-    rule='fixed witnesses of the known finding + seeded interleavings of 2..5 calls per object (runtime data, settings, eco-mode groups, operation '
+    stages=[stage_two_obj_model, SP.inv_stage('two-object-interleavings', IM.mon_indep)],
+    theorems=['C20_untouching_neighbour_does_not_interfere', 'C20_schedule_free_interleavings_are_independent', 'C20_touching_settings', 'C20_touching_modes',
+              'C20_untouching_example', 'C20_requests_differ_refuted', 'C20_requests_differ_witness', 'C20_returned_value_changes_refuted',
+              'C20_returned_value_changes_same_object', 'C20_shared_state_inventory', 'C20_schedule_read_value_is_the_model',
+              'C20_eco_v1_read_value_is_the_model', 'C20_decoding_has_no_hidden_state'],
+    rule='model correspondence: seeded interleavings of 2..8 calls (scalar and group reads / writes, all operation modes incl. out-of-range arguments, '
+         'get_operation_mode) on two ET objects (platform 205 / 745) with readable, half-readable and unreadable groups; interleaving search: fixed '
+         'witnesses of the known finding + seeded interleavings of 2..5 calls per object (runtime data, settings, eco-mode groups, operation '
          'modes) on pairs drawn from ET (205 / 745, v1 / v2, RTU / TCP), DT, ES',
-    trusted_base=SP.TB_SENS[2:],
+    trusted_base=SP.TB_SENS[2:] + ['tools/sv2v.py (read_value translator and shared-state scan), tools/om2v.py, tools/ws2v.py; meaning of the statement languages in Model/SchedDef.v, Model/Modes.v, Model/TwoObj.v'],
     assumptions=[],
 )
